@@ -5,6 +5,7 @@ import (
 	"fmt"
 	"net/netip"
 	"reflect"
+	"sort"
 	"strings"
 	"time"
 
@@ -419,6 +420,79 @@ func streamText(c *ctx) {
 					return "ok"
 				})
 				w.Emit("taskobj "+from+" "+to, out, "taskobj/"+out)
+			}
+		}
+	}
+
+	// --- every key of every container's own JSON replaced by null / "" / 0 / {} / [] or left out: decoding may accept
+	// or reject, it must come back (no crash)
+	{
+		from, to := types.ToDate(2024, 1, 1), types.ToDate(2024, 12, 31)
+		containers := []struct {
+			name   string
+			value  any
+			decode func(b []byte) error
+		}{
+			{"card", types.Card{CardNumber: 8165538, From: from, To: to, Doors: map[uint8]uint8{1: 1, 2: 0, 3: 29, 4: 1}, PIN: 7531},
+				func(b []byte) error { var v types.Card; return json.Unmarshal(b, &v) }},
+			{"cardptr", &types.Card{CardNumber: 8165538, From: from, To: to, Doors: map[uint8]uint8{1: 1, 2: 0, 3: 29, 4: 1}, PIN: 7531},
+				func(b []byte) error {
+					var v []types.Card
+					return json.Unmarshal(append(append([]byte("["), b...), ']'), &v)
+				}},
+			{"timeprofile", types.TimeProfile{ID: 29, LinkedProfileID: 30, From: from, To: to, Weekdays: types.Weekdays{time.Monday: true, time.Friday: true},
+				Segments: types.Segments{1: {Start: types.NewHHmm(8, 30), End: types.NewHHmm(11, 45)}, 2: {}, 3: {}}},
+				func(b []byte) error { var v types.TimeProfile; return json.Unmarshal(b, &v) }},
+			{"task", types.Task{Task: types.TaskType(8), Door: 3, From: from, To: to, Weekdays: types.Weekdays{time.Monday: true}, Start: types.NewHHmm(8, 30), Cards: 1},
+				func(b []byte) error { var v types.Task; return json.Unmarshal(b, &v) }},
+			{"status", types.Status{SerialNumber: 405419896, DoorState: map[uint8]bool{1: true}, DoorButton: map[uint8]bool{2: true}, SystemDateTime: types.DateTime(time.Date(2024, 3, 14, 12, 34, 56, 0, time.Local))},
+				func(b []byte) error { var v types.Status; return json.Unmarshal(b, &v) }},
+		}
+		for _, ct := range containers {
+			base, err := json.Marshal(ct.value)
+			if err != nil {
+				continue
+			}
+			var m map[string]json.RawMessage
+			if json.Unmarshal(base, &m) != nil {
+				continue
+			}
+			keys := []string{}
+			for k := range m {
+				keys = append(keys, k)
+			}
+			sort.Strings(keys)
+			for _, key := range keys {
+				for _, how := range []string{"null", "absent", "empty-string", "zero", "empty-object", "empty-array", "twice-last-null"} {
+					out := guard(func() string {
+						m2 := map[string]json.RawMessage{}
+						for k, v := range m {
+							m2[k] = v
+						}
+						switch how {
+						case "null":
+							m2[key] = json.RawMessage(`null`)
+						case "absent":
+							delete(m2, key)
+						case "empty-string":
+							m2[key] = json.RawMessage(`""`)
+						case "zero":
+							m2[key] = json.RawMessage(`0`)
+						case "empty-object":
+							m2[key] = json.RawMessage(`{}`)
+						case "empty-array":
+							m2[key] = json.RawMessage(`[]`)
+						}
+						b, _ := json.Marshal(m2)
+						if how == "twice-last-null" {
+							kb, _ := json.Marshal(key)
+							b = append(append(b[:len(b)-1], ','), append(kb, []byte(`:null}`)...)...)
+						}
+						ct.decode(b)
+						return "returned"
+					})
+					w.Emit("jsonkey "+ct.name+" "+key+" "+how, out, "jsonkey/"+ct.name, "jsonkey/"+how)
+				}
 			}
 		}
 	}
